@@ -9,7 +9,7 @@ PAT="${1:-}"; TIER="${2:-quick}"
 ISO="${ISO:-/tmp/verif-quiet}"
 mkdir -p "$ISO"
 if [ ! -d "$ISO/repo" ]; then git -C /repo worktree add --detach "$ISO/repo" HEAD -q || exit 2; fi
-git -C "$ISO/repo" checkout -q --detach "$(git -C /repo rev-parse HEAD)" 2>/dev/null; git -C "$ISO/repo" checkout -q -- .
+git -C "$ISO/repo" checkout -q --detach "$(git -C /repo rev-parse HEAD)" 2>/dev/null; git -C "$ISO/repo" checkout -q -- . ; git -C "$ISO/repo" clean -fdq
 mkdir -p "$ISO/verif"
 rsync -a --delete --exclude target "$HERE/sim/" "$ISO/verif/sim/"
 cp "$HERE/known_findings.json" "$ISO/verif/"
@@ -22,13 +22,13 @@ for patch in "$HERE"/quiet/*.patch; do
     name="$(basename "$patch" .patch)"
     if [ -n "$PAT" ] && [[ "$name" != *$PAT* ]]; then continue; fi
     git -C "$ISO/repo" apply "$patch" || { echo "$name: patch does not apply"; bad=$((bad+1)); continue; }
-    (cd "$ISO/verif/sim" && cargo build --release --offline -q 2> "$ISO/build.log") || { echo "ALARM $name: build failed"; grep -E '^error' -A6 "$ISO/build.log" | head; git -C "$ISO/repo" checkout -q -- .; bad=$((bad+1)); continue; }
+    (cd "$ISO/verif/sim" && cargo build --release --offline -q 2> "$ISO/build.log") || { echo "ALARM $name: build failed"; grep -E '^error' -A6 "$ISO/build.log" | head; git -C "$ISO/repo" checkout -q -- . ; git -C "$ISO/repo" clean -fdq; bad=$((bad+1)); continue; }
     alarms=""
     for p in $PROPS; do
         out="$("$ISO/verif/sim/target/release/simcheck" check "$p" "$TIER" 2>&1)"; code=$?
         if [ $code -ne 0 ]; then alarms="$alarms $p(exit=$code: $(echo "$out" | grep -E '^  [A-Z][0-9]+\|' | head -1 | cut -c1-140))"; fi
     done
-    git -C "$ISO/repo" checkout -q -- .
+    git -C "$ISO/repo" checkout -q -- . ; git -C "$ISO/repo" clean -fdq
     if [ -z "$alarms" ]; then echo "quiet $name"; good=$((good+1)); else echo "ALARM $name:$alarms"; bad=$((bad+1)); fi
 done
 echo "quiet test (isolated): $good quiet, $bad alarmed"
